@@ -1,2 +1,5 @@
 SPECIFICATION Spec
+CONSTANTS
+  MaxOps = 3
+  Tables = {1, 2, 3}
 INVARIANTS EmitWorld Emit
